@@ -530,6 +530,11 @@ def mesh_basis():
     def build(draw):
         k = draw(st.integers(1, 2))
         basis = [draw(gen.mesh_patterns(0 if draw(st.integers(0, 5)) == 0 else 1, 3)) for _ in range(k)]
+        if draw(st.integers(0, 2)) == 0:
+            # several mesh patterns on one underlying permutation (incomparable shadings: none is redundant)
+            first = basis[0]
+            for _ in range(draw(st.integers(1, 2))):
+                basis.append([list(first[0]), draw(gen.shadings(len(first[0]), draw(st.sampled_from(["sparse", "half", "lines"]))))])
         if draw(st.booleans()):
             basis.append(list(draw(gen.perms(2, 4))))
         return basis
